@@ -15,6 +15,6 @@ CONSTANTS
   Plan = "W"
   ExportMod = 0
   ExportSeed = 0
-  Repaired = {}
+  Repaired = {"post_form", "dup_keyorder", "bare_colon", "goquote"}
 INVARIANTS MechEqDef QuirksExplain Laws AbsentLocal
 CHECK_DEADLOCK FALSE
